@@ -203,7 +203,11 @@ func (a *AddressDecMap) Decode(r stdio.Reader) (err error) {
 		return errors.WithMessage(err, "decoding map length")
 	}
 
-	*a = make(map[BackendID]Address, mapLen)
+	if mapLen < 0 {
+		return errors.New("negative map length")
+	}
+	// Do not trust the declared length with an allocation: grow with the data.
+	*a = make(map[BackendID]Address)
 	for i := range mapLen {
 		var idx int32
 		err := perunio.Decode(r, &idx)
@@ -228,8 +232,13 @@ func (a *AddressMapArray) Decode(r stdio.Reader) (err error) {
 		return errors.WithMessage(err, "decoding array length")
 	}
 
-	a.Addr = make([]map[BackendID]Address, mapLen)
+	if mapLen < 0 {
+		return errors.New("negative array length")
+	}
+	// Do not trust the declared length with an allocation: grow with the data.
+	a.Addr = make([]map[BackendID]Address, 0)
 	for i := range mapLen {
+		a.Addr = append(a.Addr, nil)
 		err := perunio.Decode(r, (*AddressDecMap)(&a.Addr[i]))
 		if err != nil {
 			return errors.WithMessagef(err, "decoding %d-th address map entry", i)
